@@ -5,9 +5,11 @@
   case <id> re  <n>                                ops: feed <hex>
   case <id> bru <fixed> <sephex> <cap> <keepEnd>   ops: fill <hex>
   case <id> bfx <size> <cap>                       ops: fill <hex>
+  case <id> prod <sephex>                          ops: ser <hex>      -> refused | nothing | chunk <hex>
   outputs: frame <hex> | limit | room <n> | crashed | held <hex> (at end)
 -/
 import EasyNet.Model.Consumer
+import EasyNet.Model.Producer
 import EasyNet.Drv.Util
 namespace EasyNet.Drv
 open EasyNet
@@ -78,6 +80,20 @@ def runFraming (model : String) (cfg : List String) (ops : List String) : Option
     let size ← size.toNat?; let cap ← cap.toNat?
     if size = 0 ∨ cap < size then none else
     pure (runBuf BFX.init BFX.start cap (BFX.feed size) (·.nread) ops)
+  | "prod", [sep] => do
+    let sep ← parseHex sep
+    if sep.isEmpty then none else
+    pure (ops.map fun op =>
+      match words op with
+      | ["ser", h] =>
+        match parseHex h with
+        | some d =>
+          match AutoSep.produce sep d with
+          | .refused => "refused"
+          | .nothing => "nothing"
+          | .chunk b => s!"chunk {toHex b}"
+        | none => "bad-op"
+      | _ => "bad-op")
   | _, _ => none
 
 end EasyNet.Drv
